@@ -203,7 +203,11 @@ def r3(R, repo):
     first = body.elts[0] if isinstance(body, ast.Tuple) else body
     ok = isinstance(first, ast.UnaryOp) and isinstance(first.op, ast.USub) and astu.src(first.operand).startswith('parent_count[')
   pc = flow.defs(sv, 'parent_count')
-  ok = ok and 'issubclass(p, variablelib.Variable)' in astu.src(sv.node) and 't.mro()' in astu.src(sv.node)
+  # the counting helper may be nested or a module-level function called from here
+  ctext = astu.src(sv.node) + ''.join(astu.src(g_.node) for g_ in (sv.mod.funcs.get(astu.call_name(x) or '') for x in astu.func_calls(sv)) if g_ is not None)
+  has_count = 'issubclass(p, variablelib.Variable)' in ctext and 't.mro()' in ctext
+  sign_ok = ok
+  ok = ok and has_count
   keyl = astu.kwarg(rets[0], 'key') if len(rets) == 1 and isinstance(rets[0], ast.Call) and astu.call_name(rets[0]) == 'sorted' else None
   asc = keyl is not None and 'parent_count' in astu.src(keyl) and not any(isinstance(x, ast.UnaryOp) and isinstance(x.op, ast.USub) for x in ast.walk(keyl)) and not astu.is_const(astu.kwarg(rets[0], 'reverse'), True)
   # key=<the counting function itself>: ascending by the number of Variable ancestors, i.e. bases first
@@ -221,6 +225,9 @@ def r3(R, repo):
   if resorted is not None:
     R.fail(key_of(sv, 'sorted by number of Variable ancestors, descending, as the primary key'), (sv, rets[0]),
            '`%s` re-sorts the depth-ordered types by another key: the number of Variable ancestors is no longer the primary order, so a base class can precede its subclass and (nnx.split being first-match) swallow the subclass\'s variables' % astu.short(rets[0]))
+    return
+  if sign_ok and not has_count and not asc:
+    R.unsure(key_of(sv, 'sorted by number of Variable ancestors, descending, as the primary key'), sv, 'the function that counts the Variable classes in the MRO was not found')
     return
   R.judge((isinstance(keyl, ast.Lambda) and 'parent_count' in astu.src(keyl)) or asc, ok and not asc, key_of(sv, 'sorted by number of Variable ancestors, descending, as the primary key'), sv,
           'sort_variable_types must order types by -(number of Variable classes in the MRO) as the primary key, so that a subclass always precedes its base')
